@@ -140,13 +140,13 @@ def build(path, cfg, r):
         # shrink distinct rows of one leaf by 1-3 bytes each: every update leaves a fragment; 20 x 3 bytes reach
         # the limit of 60 fragmented bytes exactly
         nupd, step = cfg["fragmenter"]
-        con.execute("CREATE TABLE frag (a INTEGER PRIMARY KEY, b TEXT)")
+        con.execute("CREATE TABLE frag (a INTEGER PRIMARY KEY, b BLOB)")      # blobs: byte counts independent of the encoding
         tables["frag"] = (["a", "b"], True)
         con.execute("BEGIN")
         width = 40
         per_leaf = max(4, min(60, (cfg["page_size"] - 100) // (width + 6)))
         for i in range(1, per_leaf + 1):
-            con.execute("INSERT INTO frag VALUES (?, ?)", (i, "f" * width))
+            con.execute("INSERT INTO frag VALUES (?, ?)", (i, b"f" * width))
         con.execute("COMMIT")
         for i in range(1, min(nupd, per_leaf) + 1):
             con.execute("UPDATE frag SET b = substr(b, 1, ?) WHERE a = ?", (width - step, i))
